@@ -355,6 +355,26 @@ impl<'a> GeneratorState<'a> {
     {
         let mut acc_in_use = self.acc_in_use;
         let signed;
+        // The high byte of a shifted value depends on both bytes of the operand, except
+        // for a shift by 8: the byte-wise evaluation below can't compute it
+        if high_byte
+            && !matches!(left, ExprType::Immediate(_))
+            && !matches!(right, ExprType::Immediate(8))
+        {
+            // An unsigned 8 bits value shifted right has no high byte
+            let unsigned_byte = match left {
+                ExprType::X | ExprType::Y => true,
+                ExprType::Absolute(varname, _, _) => {
+                    let v = self.compiler_state.get_variable(varname);
+                    v.var_type == VariableType::Char && !v.signed
+                }
+                _ => false,
+            };
+            if unsigned_byte && *op == Operation::Brs(false) {
+                return Ok(ExprType::Immediate(0));
+            }
+            return Err(self.compiler_state.syntax_error("Shift too complex for a 16 bits result (constant 8 only supported). Please use an intermediate variable or a shift assignment", pos));
+        }
         match left {
             ExprType::Immediate(l) => {
                 match right {
